@@ -382,6 +382,12 @@ class GroupBy:
         Count of observations for each group as numpy array containing the ikey or codes.
         Includes empty groups
         """
+        if (
+            isinstance(mask, (pd.Series, pd.DataFrame))
+            and getattr(self, "_key_index", None) is not None
+            and not self._key_index.equals(mask.index)
+        ):
+            raise ValueError("Pandas index of the mask does not match that of the group keys")
         if self.key_is_chunked:
             group_key, first_chunk_in, mask_chunks = (
                 self._resolve_mask_argument_into_chunks(mask)
@@ -1859,6 +1865,10 @@ class GroupBy:
             Ratio of subset aggregated values to total aggregated values for each group.
         """
         # check for nullity
+        # `&` would silently label-align or broadcast the two masks: check them first
+        self._preprocess_arguments(values, mask=subset_mask)
+        if global_mask is not None:
+            self._preprocess_arguments(values, mask=global_mask)
         kwargs = dict(agg_func=agg_func, margins=margins, values=values)
         return self.agg(**kwargs, mask=subset_mask & global_mask) / self.agg(
             **kwargs, mask=global_mask
